@@ -186,6 +186,48 @@ pub fn run(ctx: &Ctx) -> Report {
             }
         }
     }
+    // (3) the real manager in the simulation, judged against ground truth: outside end game a piece
+    // is not handed to a peer while another connected peer that does not choke us is fetching it
+    // (whatever the status vector says about that piece)
+    if ctx.want("sim") {
+        let mut r = ctx.rng("c13-sim");
+        for _ in 0..ctx.count(1_200, 30_000) {
+            let seed = ctx.scenario_seed(r.next());
+            let mut sr = Rng::new(seed);
+            let sc = crate::checks::c12::gen_scenario(&mut sr, seed);
+            let desc = sc.desc.clone();
+            rep.evaluations += 1;
+            let o = crate::sim::run_sim(sc.cfg, &ctx.scratch, 120);
+            if o.watchdog { rep.inconclusive(format!("watchdog (scenario seed {})", seed)); continue; }
+            if let Some(p) = o.panics.first() { rep.inconclusive(format!("a task panicked ({}): {}", panic_site(p), p)); continue; }
+            let mut prev: Option<std::rc::Rc<rdest::verif::Snapshot>> = None;
+            let mut found: Option<(String, u64)> = None;
+            for (e, kind, after) in o.mgr() {
+                if let Some(pv) = &prev {
+                    let missing = after.statuses.iter().filter(|s| **s != Status::Have).count();
+                    for p in &after.peers {
+                        let before = pv.peers.iter().find(|x| x.addr == p.addr);
+                        let newly = match (p.piece_index, before) { (Some(i), Some(b)) => b.piece_index != Some(i) || (kind == "RecvUnchoke" && b.choked && e.addr == p.addr), (Some(_), None) => true, _ => false };
+                        if let (true, Some(i)) = (newly, p.piece_index) {
+                            rep.count("assignments_judged_in_simulation", 1);
+                            if missing >= 10 {
+                                rep.count("assignments_outside_end_game", 1);
+                                if let Some(q) = after.peers.iter().find(|q| q.addr != p.addr && q.piece_index == Some(i) && !q.choked) {
+                                    found = Some((format!("after {} {}: piece {} handed to {} while {} (not choking us) is fetching it; {} pieces still lacking", kind, e.addr, i, p.addr, q.addr, missing), e.seq));
+                                }
+                            }
+                        }
+                    }
+                }
+                if found.is_some() { break; }
+                prev = Some(after.clone());
+            }
+            rep.distinct(&hash64(&desc.to_string()));
+            if let Some((what, seq)) = found {
+                rep.violation("C13:picked-piece-being-fetched-outside-endgame", what, json!({"scenario": desc, "trace": crate::checks::c12::witness_trace(&o, seq)}));
+            }
+        }
+    }
     // tie-break coverage: in how many tie classes (queried >= twice) was more than one member picked
     let multi = tie_seen.values().filter(|s| s.len() > 1).count();
     rep.count("tie_classes_observed", tie_seen.len() as u64);
@@ -229,6 +271,9 @@ fn run_histories(ctx: &Ctx, rep: &mut Report, probe_requests: bool) {
         // 1 = everything owned (seeding), 2 = nothing Missing but some pieces only Reserved (still leeching)
         let status_mode = r.below(3);
         let same_rates = r.chance(1, 3);
+        // in a third of the histories nobody withdraws interest (so nobody is sent away and, when the
+        // client owns everything, no extraction has run yet when the rotations happen)
+        let no_departures = r.chance(1, 3);
         // build a history of real commands
         let mut ops: Vec<Op> = vec![];
         let mut added = 0usize;
@@ -238,7 +283,7 @@ fn run_histories(ctx: &Ctx, rep: &mut Report, probe_requests: bool) {
             if added > 0 {
                 for _ in 0..r.range(0, (added as u64) * 2) {
                     let p = r.usize(added);
-                    ops.push(match r.below(5) { 0 | 1 => Op::Interested(p), 2 => Op::NotInterested(p), _ => { let a = if tie_heavy { r.below(3) as u32 * 100 } else { r.below(100_000) as u32 }; let b = if same_rates { a } else if tie_heavy { r.below(3) as u32 * 100 } else { r.below(100_000) as u32 }; Op::Stats(p, a, b) } });
+                    ops.push(match r.below(5) { 0 | 1 => Op::Interested(p), 2 if !no_departures => Op::NotInterested(p), 2 => Op::Interested(p), _ => { let a = if tie_heavy { r.below(3) as u32 * 100 } else { r.below(100_000) as u32 }; let b = if same_rates { a } else if tie_heavy { r.below(3) as u32 * 100 } else { r.below(100_000) as u32 }; Op::Stats(p, a, b) } });
                 }
                 if r.chance(3, 4) {
                     for p in 0..added { if r.chance(9, 10) { let a = if tie_heavy { r.below(3) as u32 * 100 } else { r.below(100_000) as u32 }; let b = if same_rates { a } else if tie_heavy { r.below(3) as u32 * 100 } else { r.below(100_000) as u32 }; ops.push(Op::Stats(p, a, b)); } }
